@@ -38,8 +38,17 @@ def _worker_init(extra_env):
     sys.path.insert(0, os.path.join(ROOT, "harness", "plugins"))
     if REPO not in sys.path:
         sys.path.insert(0, REPO)
+    if os.environ.get("VERIF_COVERAGE"):      # development aid (tools/coverage_of_checks.sh): which lines of ladim/ do the checks execute?
+        import coverage
+        global _COV
+        _COV = coverage.Coverage(data_file=os.path.join(os.environ["VERIF_COVERAGE"], ".coverage"), data_suffix=True,
+                                 include=[os.path.join(os.path.realpath(REPO), "ladim", "*")])
+        _COV.start()
     import ladim
     assert os.path.realpath(ladim.__file__).startswith(os.path.realpath(REPO) + os.sep), ladim.__file__
+
+
+_COV = None
 
 
 def _call(arg):
@@ -50,6 +59,9 @@ def _call(arg):
         return getattr(mod, fn_name)(sc)
     except BaseException as e:  # a driver bug, not an observation
         return {"__driver_error__": "".join(traceback.format_exception(type(e), e, e.__traceback__))[-2000:]}
+    finally:
+        if _COV is not None:
+            _COV.save()
 
 
 def pmap(fn_mod, fn_name, scenarios, *, procs=16, env=None, chunksize=4):
